@@ -62,6 +62,24 @@ CHECKS = {
             rapid("random", "TestC03Random", {"checks": 30000, "shards": 4}, {"checks": 300000, "shards": 16, "timeout": 6000}),
         ],
     },
+    "C04": {
+        "technique": "rapid random generation of boundary pairs + exhaustive pairs of type-confusable atoms, oracle = independent canonical forms",
+        "level_text": "Pairs built to sit on the decision boundary (permutations, duplications, single confusable swaps, edit-derived and independent "
+                      "documents, numbers nudged around eps) are judged by Equals and by harness-owned canonical forms (ordered / set / bag, type tagged) "
+                      "or the eps comparison; reflexivity and symmetry are checked on every pair; all pairs of ~36 type-confusable atoms (incl. "
+                      "constructed string/float twins) are enumerated in four embeddings under five option sets.",
+        "level_note": "Set and bag equality in jd is decided by 64-bit hashes: absence of collisions that need a pre-image search is out of reach of "
+                      "generated-input search; six constructible aliases of numbers are the listed finding D15.",
+        "rule": "random leg: (x, permutation / duplication / permutation+duplication / Edit / one-confusable-swap of x), confusable roots, independent docs, "
+                "under list, set, mset, setkeys:id, and Precision(eps) with numbers moved by {0, .5, .999999, 1, 1+2^-20, 2} x eps; exhaustive leg: all ordered pairs of "
+                "confusable atoms as root, [x], [x,x] and {\"k\":[1,x]}, plus the void document against every atom. Non-trivial: texts differ and the oracle says equal, "
+                "or a near miss (equal under another reading, different JSON types, or equal within 1); distinct by (a, b, options).",
+        "assumptions": ["canonical forms compare numbers exactly with -0 == 0"],
+        "legs": [
+            enum("exhaustive", "TestC04Exhaustive", {"shards": 4}, {"shards": 8}),
+            rapid("random", "TestC04Random", {"checks": 50000, "shards": 4}, {"checks": 600000, "shards": 16, "timeout": 6000}),
+        ],
+    },
     "C06": {
         "technique": "exhaustive enumeration of small array pairs + rapid random generation, oracle = independent LCS optimum and reference hunk interpreter",
         "level_text": "Every ordered pair of arrays over a small alphabet up to a length bound is enumerated (complete for that universe) and "
